@@ -6,15 +6,21 @@ CONFIG = {
                   "schedules (every interleaving of the two copiers, main, the caller and the environment) and all data scenarios: "
                   "with buffered result channels both copier goroutines exit once PipeData has returned; every connection object of "
                   "the pair is closed; the accept loop ends on every sticky session error; a session whose handshake was refused is closed whatever its peer does next "
-                  "(the refusal branch of AcceptConnection only logs and closes: regenerated fact). The code-dependent parameters (channel "
+                  "(the refusal branch of AcceptConnection only logs and closes: regenerated fact); a session that is ended locally while its "
+                  "send loop is blocked in a carrier write (peer not reading, peer keeps its end open) is released in every final state of every "
+                  "interleaving of the closing goroutine, the send loop and the receive loop, because no Close method of a connection wrapper "
+                  "in internal/streams and none of the session-ending places makes a call without a finite deadline before the socket "
+                  "underneath is closed (regenerated list of those calls; witness for a close frame / flush / lock without deadline). The code-dependent parameters (channel "
                   "capacity, which ends each select arm closes, whether muxHandler closes the target, the accept loop's error "
                   "handling) are regenerated from the source; witnesses show the leak / open target / busy loop for the old values. "
                   "Partial: goroutines, descriptors and CPU of the real runtime are observed by the correspondence, not proved.",
     "level_note": "Trusted: Lean kernel; model SA.Model.Pipe tied to the real PipeData and the real server per-stream path "
                   "(multiplexToUpstream/muxHandler) by scripted in-memory scenarios comparing return value, bytes, close calls and a "
                   "goroutine census, and to whole client/server pairs by the `life` e2e runs (goroutine slope over N connections, CPU of "
-                  "the idle process after the session was cut or fed a garbage frame). smux's sticky-error behaviour is assumed as read "
-                  "from its source.",
+                  "the idle process after the session was cut or fed a garbage frame; sessions ended while their carrier write is really blocked - "
+                  "checked in a goroutine dump - with a census of goroutines by creating function and of the process's TCP sockets while the peer "
+                  "keeps its end open and unread). smux's sticky-error behaviour and 'closing the socket makes a blocked Write/Read on it fail' "
+                  "are assumed as read from their sources; the models are untimed: a call with a finite deadline counts as returning.",
     "technique": "Lean 4 proof (inductive invariant over a transition system, all schedules) + regenerated facts + scenario correspondence",
     "components": [{"name": "pipe", "timeout": {"quick": 300, "thorough": 900}},
                    {"name": "life", "timeout": {"quick": 600, "thorough": 1800}},
@@ -22,8 +28,13 @@ CONFIG = {
     "rule": "pipe: 15 enumerated scenario scripts x {PipeData alone, server per-stream path} plus random scripts of write/close events "
             "with boundary sizes; life: N sequential logical connections (either side closing) on tcp/ws (thorough: more carriers, N up "
             "to 100), then session ending none/cut/garbage; N raw peers violating the handshake that keep their end open / hang up "
-            "(goroutines, descriptors per refused session, server-side close seen by every peer); socks: connections through the built-in SOCKS5 channel (echo / target closes first / application closes first, goroutine census); non-trivial = data moved / connections completed; distinct = distinct op line",
+            "(goroutines, descriptors per refused session, server-side close seen by every peer); blockS/blockC: a session is ended "
+            "(garbage frame, peer hang-up, keep-alive time-out, session close, client Shutdown) while the server's resp. the client's multiplexer send loop "
+            "is blocked in a carrier write - raw peer that completes the real handshake, selects a flooding target and never reads, resp. a relay that "
+            "stalls under a flooding application - on ws/tcp/stdio (thorough: tcptls, wss, starttls, stdiotls, several rounds, time-outs); socks: connections through the built-in SOCKS5 channel (echo / target closes first / application closes first, goroutine census); non-trivial = data moved / connections completed; distinct = distinct op line",
     "trusted_base": COMMON_TB + ["Go runtime, net.Pipe, smux, go-multistream (outside the model)"],
     "assumptions": ["goroutine census by function name (streams.pipeData) and by total count at quiescent points",
-                    "busy loop = more than half a core used by the idle process over 0.7 s"],
+                    "busy loop = more than half a core used by the idle process over 0.7 s",
+                    "blocked endings: the idle loops of a multiplexer session whose carrier the PEER dropped, and its CLOSE_WAIT socket, are reaped by "
+                    "the multiplexer's keep-alive within 60 s and are not counted in the census taken at once (endings cutwait/timeout wait for it and count everything)"],
 }
